@@ -24,7 +24,7 @@ from harness.common import Failure, lean_run
 
 PROP_MODULES = ["ArmiVerif.Props.C13"]
 PARTIAL = ("all theorems listed in DESIGN section 5 C13 are proved, incl. invariance over arbitrary op sequences (good_run) "
-           "under the stated start conditions (centre assembly, another assembly, an assembly on the 0-degree line; "
+           "under the stated start conditions (a non-centre assembly, an assembly on the 0-degree line; "
            "the excluded points are run and listed as findings); "
            "mass / volume totals are compared to 1e-9 relative (floats); stored parameters exactly (dyadic values); "
            "lookup tables are derived from the child list in the model (they are explicit state in C14's model); "
@@ -257,6 +257,10 @@ def run_case(ctx, spec, ops, compare=True):
     for k, op in enumerate(ops):
         tag = "op %d %s" % (k, op)
         was_full = core.isFullCore
+        cells_now = {cell_of(a) for a in core}
+        shape_before = (len(core), (0, 0) in cells_now, sum(1 for c in cells_now if on120(c)),
+                        sum(1 for c in cells_now if on0(c)), (-1, 2) in cells_now, any(c[1] < 0 for c in cells_now),
+                        bool(ch._newAssembliesAdded), bool(ec._newAssembliesAdded), bool(ch.listOfVolIntegratedParamsToScale))
         if op == "convert" and not was_full:
             src = [a for a in core if not on120(cell_of(a))]
             pre_convert = {
@@ -283,6 +287,8 @@ def run_case(ctx, spec, ops, compare=True):
         except Exception as e:  # noqa
             raised = e
         ctx.count("op " + op + (" (raised)" if raised is not None else ""))
+        ctx.distinct.add(("op", op, was_full, shape_before, spec["rings"], len(spec["holes"]), bool(spec.get("edges0")),
+                          spec.get("arr", "list"), "ok" if raised is None else type(raised).__name__))
         req.append(op)
         if raised is not None:
             line = canon_state(r, ch, ec) + " raised" if op == "restore" else "reject"
@@ -504,7 +510,10 @@ def run(ctx):
                 "without pre-existing edge assemblies, random dyadic block parameters; random sequences (2-10) of "
                 "convert / restore / addEdge / removeEdge on persistent changer objects; excluded points (no centre "
                 "assembly, centre only, no cell with j<0 after a flag-resetting addEdge) as separate cases. distinct = "
-                "distinct (core spec, op sequence); each compares the full canonical state after every op.")
+                "distinct (operation, core/changer state shape, core spec class) triples - state shape = symmetry, number of "
+                "assemblies, centre present, number of cells on the 0/120-degree lines, edge detector cell occupied, "
+                "any j<0 cell, the three changer bookkeeping flags, outcome - plus one entry per distinct (core spec, op "
+                "sequence); each compares the full canonical state after every op.")
 
 
 def domain_requests(ctx):
